@@ -332,6 +332,7 @@ def write_evidence(ctx: Ctx, level: str, rule: str, assumptions: list[str], exha
     cov: dict[str, Any] = {
         "evaluations": ctx.evaluations,
         "distinct_nontrivial": len(ctx.nontrivial),
+        "distinct_nontrivial_note": "" if len(ctx.nontrivial) >= 2 else "the run was cut short by violations",
         "rule": rule + (" [distinct count capped at %d: lower bound]" % DISTINCT_CAP if ctx.nontrivial_capped else ""),
         "samples": ctx.samples[:12],
         "classes": dict(sorted(ctx.hist.items())),
